@@ -12,6 +12,8 @@ import Driver.Pipeline
 import Driver.Proto2
 import Driver.Value
 import Driver.Query
+import Driver.FSStore
+import Driver.Crash
 
 open Driver
 
@@ -19,7 +21,7 @@ def dispatch (line : String) : String :=
   match (line.splitOn " ").filter (· ≠ "") with
   | [] => "bad-op"
   | cmd :: args =>
-    let handlers : List (String → Option (P String)) := [cmdPre, cmdContent, cmdFormat, cmdExprJson, cmdPipeline, cmdProto2, cmdValue, cmdQuery]
+    let handlers : List (String → Option (P String)) := [cmdPre, cmdContent, cmdFormat, cmdExprJson, cmdPipeline, cmdProto2, cmdValue, cmdQuery, cmdFSStore, cmdCrash]
     match handlers.findSome? (fun h => h cmd) with
     | none => "bad-op"
     | some p => match run p args with
